@@ -716,6 +716,17 @@ theorem depth_after_history_with_user_labels (ne np nc : Nat) (es : List C12.Edi
   obtain ⟨h1, _, h3, _⟩ := depth_metrics_with_user_labels g hk hS
   exact ⟨h1, h3⟩
 
+/-- **metrics after a history of node-addressed edits, wires computed by the list edits**: for a history of `add` / `insert_at` /
+    `remove_op` / `replace_op` on existing registers (`C12.NodeHistOK`), the wires of the reached circuit are `C12.wiresRun` — a
+    function of the wires before, `_node_id` and the edits (splice / erase / keep) — and every metric equals its specification on
+    every schedule of those wires -/
+theorem metrics_after_node_history {c : Dag} {P : Reg → List NodeId} (g : Good c P) (es : List C12.Edit)
+    (hok : C12.NodeHistOK c es) (hpl : AllPlain (C12.run c es)) :
+    Good (C12.run c es) (C12.wiresRun P c.nodeId es).1 ∧
+    ∀ L, Sched (C12.run c es) (C12.wiresRun P c.nodeId es).1 L → MetricsMeetSpec (C12.run c es) (L.map (·.2)) := by
+  obtain ⟨g', _⟩ := C12.node_history_wires es g hok
+  exact ⟨g', fun L hS => metrics_eq_spec_on_any_schedule g' hpl hS⟩
+
 /-- … in closed form: the metrics of the reached circuit are the specifications evaluated on `wireOpList` of it, a computable
     function of the wires `reg_gate_history` returns and of the node operations -/
 theorem metrics_after_history_of_wires (ne np nc : Nat) (es : List C12.Edit) (hok : C12.HistOKg (Dag.init ne np nc) es) :
